@@ -492,6 +492,56 @@ def op_eq(res, ei, ci, wi):
                           % (case["equilibrium"], desc, dnu), case, "accepted", "exception")
 
 
+def op_eq_as_reactions(res, ei, ci, ti, wi):
+    """the forward / backward reactions made from an equilibrium (as_reactions(kf=..., units=...)) are reactions like any other:
+    a forward constant of the wrong dimension is refused; with the right one both halves carry constants of the dimension their
+    own order asks for (concentration^(1-order)/time)"""
+    env = E()
+    chempy, u = env["chempy"], env["u"]
+    reac, prod = EQS[ei]
+    nf, nb = _order(reac), _order(prod)
+    kf = _kq(3, nf, ci, ti)
+    desc = "3 %s**%d/%s" % (CONC[ci][0], 1 - nf, TIME[ti][0])
+    if wi is not None:
+        kf = _wrong(kf, wi)
+        desc += " * %s**%d" % WRONG[wi]
+    case = dict(op="eq_as_reactions", args=[ei, ci, ti, wi], equilibrium="%r = %r" % (reac, prod), kf=desc)
+    res.states += 1
+    res.transitions += 2
+    res.evaluations += 1
+    res.nontrivial += 1
+
+    def run():
+        fw, bw = chempy.Equilibrium(reac, prod, 25.0).as_reactions(kf=kf, units=u)
+        return fw.param, bw.param
+
+    got = _obs(run)
+    if wi is not None:
+        if _isexc(got):
+            res.outcomes["as_reactions-wrong-dimension-refused|" + got[4:]] += 1
+        else:
+            res.outcomes["as_reactions-wrong-dimension-ACCEPTED"] += 1
+            res.violation("C10|Equilibrium.as_reactions|wrong-dimension-accepted", "Equilibrium(%s; 25).as_reactions(kf=%s, units=default_units) was accepted: forward order %d needs concentration^%d/time" % (
+                case["equilibrium"], desc, nf, 1 - nf), case, "accepted", "exception")
+        return
+    if _isexc(got):
+        res.outcomes["as_reactions-right-dimension-REFUSED"] += 1
+        res.violation("C10|Equilibrium.as_reactions|right-dimension-refused", "Equilibrium(%s; 25).as_reactions(kf=%s, units=default_units) raised %s" % (case["equilibrium"], desc, got), case, got, "two reactions")
+        return
+    bad = None
+    for nm, q, n in (("forward", got[0], nf), ("backward", got[1], nb)):
+        m, e = A.si(q)
+        if e != _k_exps(n):
+            bad = "%s constant %r has SI exponents %r, order %d needs %r" % (nm, q, e, n, _k_exps(n))
+    mf, _ = A.si(got[0])
+    mb, _ = A.si(got[1])
+    if bad is None and not A.close(float(mf) / float(mb), 25.0 * 1000.0 ** (nb - nf), 1e-10):  # K = 25 with c0 = 1 M = 1000 mol/m3
+        bad = "kf/kb = %r in SI units, K = 25 (standard state 1 M) means %r" % (float(mf) / float(mb), 25.0 * 1000.0 ** (nb - nf))
+    res.outcomes["as_reactions-right-dimension-%s" % ("ok" if bad is None else "WRONG")] += 1
+    if bad:
+        res.violation("C10|Equilibrium.as_reactions|constants-inconsistent", "Equilibrium(%s; 25).as_reactions(kf=%s, units=default_units): %s" % (case["equilibrium"], desc, bad), case, bad, None)
+
+
 # --------------------------------------------------------------------------------------------- layer K
 def _check_p_units(res, case, mode, shape, ks, odesys, extra, p):
     """p_units x returned parameter magnitudes reproduce the given constants (bound by name)"""
@@ -983,6 +1033,10 @@ def run_chunk(chunk, tier):
                 for j in range(-3, 4):
                     if j != dnu:
                         op_eq_exponent(res, ei, ci, j)
+                for ti in (0, 1):
+                    op_eq_as_reactions(res, ei, ci, ti, None)
+                    for wi in range(len(WRONG)):
+                        op_eq_as_reactions(res, ei, ci, ti, wi)
         res.sample(dict(layer="E", equilibria=[repr(e) for e in EQS]))
     elif kind == "K":
         _layer_K(res, tier, *chunk[1:])
@@ -1016,7 +1070,7 @@ def run_chunk(chunk, tier):
     return res
 
 
-OPS = dict(integrate_seq=op_integrate_seq, accept_after=op_accept_after, rate_seq=op_rate_seq, accept=op_accept, accept_exponent=op_accept_exponent, eq=op_eq, eq_exponent=op_eq_exponent, rate=op_rate, integrate=op_integrate, validate=op_validate, solve=op_solve, to_arrays_reject=op_to_arrays_reject)
+OPS = dict(integrate_seq=op_integrate_seq, accept_after=op_accept_after, rate_seq=op_rate_seq, accept=op_accept, accept_exponent=op_accept_exponent, eq=op_eq, eq_as_reactions=op_eq_as_reactions, eq_exponent=op_eq_exponent, rate=op_rate, integrate=op_integrate, validate=op_validate, solve=op_solve, to_arrays_reject=op_to_arrays_reject)
 
 
 def replay(case):
